@@ -586,6 +586,7 @@ def build_pipeline_inspection(
     inspection_nodes: List[NodeInspection] = []
     key_origin: Dict[str, int] = {}  # Maps context keys to the node that created them
     deleted_keys: set[str] = set()  # Tracks keys that have been deleted from context
+    deleted_before: Dict[int, set[str]] = {}  # node index -> keys absent when it runs
     all_required_params: set[str] = set()  # All parameters required from context
     all_created_keys: set[str] = set()  # All keys created by any node
     external_required: set[str] = set()  # Keys that must come from the initial context
@@ -732,6 +733,8 @@ def build_pipeline_inspection(
                 context_params[name] = origin_idx
                 required_params.add(name)
 
+        deleted_before[index] = set(deleted_keys)
+
         # Merge explicit context requirements exposed by processor
         hook = getattr(processor.__class__, "get_context_requirements", None)
         if callable(hook):
@@ -857,6 +860,17 @@ def build_pipeline_inspection(
             if view:
                 node_inspection.preprocessor_view = view
         inspection_nodes.append(node_inspection)
+
+    # A signature default only applies while the context does not hold the name: a key
+    # the pipeline requires from the initial context (for any node) overrides the default
+    # of every node that runs before the key is deleted
+    for node_inspection in inspection_nodes:
+        absent = deleted_before.get(node_inspection.index, set())
+        for name in list(node_inspection.default_params):
+            if name in external_required and name not in absent:
+                del node_inspection.default_params[name]
+                node_inspection.config_params.pop(name, None)
+                node_inspection.context_params[name] = None
 
     # Calculate pipeline-level required context keys
     # These are parameters required by nodes but not created by any node
